@@ -1,2 +1,18 @@
+-- Root of the `SoyVerif` library: everything `./setup.sh` pre-builds.
 import SoyVerif.Base.Bytes
+import SoyVerif.Base.SExp
+import SoyVerif.Base.Utf8
+import SoyVerif.Model.Token
+import SoyVerif.Model.Ast
+import SoyVerif.Model.AstWire
+import SoyVerif.Model.Printer
+import SoyVerif.Model.Quote
+import SoyVerif.Model.Parser
+import SoyVerif.Model.Check
+import SoyVerif.Model.Registry
+import SoyVerif.Model.Writer
 import SoyVerif.Props.C15
+import SoyVerif.Props.C12
+import SoyVerif.Props.C03
+import SoyVerif.Props.C16
+import SoyVerif.Inst.C03
